@@ -56,23 +56,31 @@ class ManualExecutor(Executor):
         durs = dur if isinstance(dur, (list, tuple)) else [dur]
         d = durs[min(len(self.futs[sub]), len(durs)) - 1]
 
+        box = [fut, fn, args, kwargs]
+
         def work():
+            # (like concurrent.futures' _WorkItem.run this worker must not leave the future reachable from its own
+            #  frame: a failing callable's exception keeps the traceback, the traceback keeps this frame)
             E.vsleep(d)
-            if fut._state in ("PENDING", "CANCELLED"):
+            f, fn_, args_, kwargs_ = box
+            del box[:]
+            if f._state in ("PENDING", "CANCELLED"):
                 # what every executor's worker does with a work item: start it, or acknowledge its cancellation
-                if not fut.set_running_or_notify_cancel():
+                if not f.set_running_or_notify_cancel():
                     return
-            elif fut.cancelled():
+            elif f.cancelled():
                 return
             try:
-                v = fn(*args, **kwargs)
+                v = fn_(*args_, **kwargs_)
             except E.SchedAbort:
                 raise
             except BaseException as ex:
-                fut.set_exception(ex)
+                f.set_exception(ex)
+                f = fn_ = args_ = kwargs_ = None
                 E.emit("DelegateDone", f=sub, a=1)
             else:
-                fut.set_result(v)
+                f.set_result(v)
+                f = fn_ = args_ = kwargs_ = v = None
                 E.emit("DelegateDone", f=sub, a=0)
 
         if not d:
